@@ -161,7 +161,7 @@ class RandProg:
         if pure:
             return ('lit', 1)
         if c < 0.78:
-            return ('asg', self.lval(env, d - 1), self.exp(env, d - 1), r.choice(['=', '+=', '-=', '*=']))
+            return ('asg', self.lval(env, d - 1), self.exp(env, d - 1), r.choice(['=', ':=', '+=', '-=', '*=', '/=', '%=', '|=', '&=', '^=', '<<=', '>>=']))
         if c < 0.86:
             return ('inc', r.random() < 0.5, self.lval(env, 0), r.choice(['++', '--']))
         if env['k'] > 0:
